@@ -11,10 +11,22 @@ Definition chunk_state (cl : bool) (q : pst) : Prop :=
 Lemma hex_not_sp_cr c : is_hex c = true -> c <> SP /\ c <> CR.
 Proof. intros H. split; intros ->; vm_compute in H; discriminate. Qed.
 
-Lemma stable_chunksize : stable SChunkSize (fun c => is_hex c = true).
+Lemma hex_not_delim c : is_hex c = true -> c <> SP /\ c <> HT /\ c <> SEMI /\ c <> CR.
+Proof. intros H. repeat split; intros ->; vm_compute in H; discriminate. Qed.
+
+(* hex digits while the size has not been read yet (csize < 0) are collected *)
+Lemma run_hex_digits l : forall p acc, st p = SChunkSize -> (csize p < 0)%Z -> Forall (fun c => is_hex c = true) l ->
+  run_bytes p l acc = (set_tok (tok p ++ l) p, acc, None).
 Proof.
-  intros p c Hs Hc. unfold stepb. rewrite Hs. destruct (hex_not_sp_cr c Hc) as [A B].
-  destruct (N.eqb_spec c SP); [contradiction|]. destruct (N.eqb_spec c CR); [contradiction|]. now rewrite Hc.
+  induction l as [|c l IH]; intros p acc Hs Hn Hl; cbn [run_bytes].
+  - rewrite app_nil_r. destruct p; reflexivity.
+  - inversion Hl as [|? ? Hc Hl']; subst.
+    assert (S : stepb p c = Go_on (keep c p) []).
+    { unfold stepb. rewrite Hs. destruct (hex_not_delim c Hc) as (A & B & C & D).
+      destruct (N.eqb_spec c SP); [contradiction|]. destruct (N.eqb_spec c HT); [contradiction|].
+      destruct (N.eqb_spec c SEMI); [contradiction|]. destruct (N.eqb_spec c CR); [contradiction|].
+      rewrite Hc. assert (E : (csize p <? 0)%Z = true) by (apply Z.ltb_lt; exact Hn). rewrite E. reflexivity. }
+    rewrite S, IH; auto. rewrite app_nil_r. unfold keep; cbn. now rewrite <- app_assoc.
 Qed.
 
 Lemma run_chunk_data d : forall q rest acc,
@@ -45,10 +57,10 @@ Lemma run_size_line q n rest acc :
 Proof.
   intros Hs Hn. destruct (hex_head n) as (c & t & E & Hc & Ht). rewrite E. cbn [app].
   erewrite run_step by (unfold stepb; rewrite Hs, Hc; reflexivity).
-  rewrite run_bytes_app, (run_stable SChunkSize _ stable_chunksize t) by auto.
+  rewrite run_bytes_app, (run_hex_digits t) by (auto; cbn; lia).
   cbn [tok at_i set_tok app].
   erewrite run_step.
-  2:{ unfold stepb. cbn [st set_tok at_i set_st set_csize]. cbn [N.eqb CR SP Pos.eqb].
+  2:{ unfold stepb. cbn [st set_tok at_i set_st set_csize]. cbn [N.eqb CR SP HT SEMI Pos.eqb orb].
       cbn [csize set_tok at_i set_st set_csize tok]. cbn [Z.ltb Z.compare].
       rewrite <- E, (parse_int_hex n Hn). destruct (Z.ltb_spec (Z.of_N n) 0); [lia|]. reflexivity. }
   rewrite !app_nil_r. reflexivity.
